@@ -1,0 +1,45 @@
+//go:build verif
+
+// Contracts for package shrinker, checked by /verif/govc (comment-only file).
+package shrinker
+
+// C14-P3: the shrinker bookkeeping is touched only under its mutex.
+//@ protected shrinker.ShrinkerSt.nthread by this.mu != nil && muheld[base(this.mu)] @C14
+//@ protected shrinker.ShrinkerSt.crash by this.mu != nil && muheld[base(this.mu)] @C14
+
+//@ predicate shrinkInv(s *ShrinkerSt) = s != nil && s.mu != nil && s.condShut != nil && fsInv(s.fsstate)
+// quiescent: this goroutine holds no inode lock and has no open transaction
+//@ specfunc quiet() = noLocks() && lastst != 0 && dirtyInv() && allocInv()
+
+//@ spec (*ShrinkerSt).crashed
+//@   props C14 C06
+//@   requires shrinkInv(shrinkst) && !muheld[base(shrinkst.mu)]
+//@   modifies muheld
+//@   ensures muheld == old(muheld)
+
+// F4 (C05), R7 (C01): every iteration is one self-contained transaction that
+// ends committed (or the loop stops); no lock survives an iteration (D4, C06).
+//@ spec (*ShrinkerSt).DoShrink
+//@   props C05 C01 C03 C06 C09 C10 C11
+//@   requires shrinkInv(shrinkst) && !muheld[base(shrinkst.mu)] && inum < 32768
+//@   requires [D4-quiet] quiet() @C06 @C03
+//@   allocates fstxn.FsTxn, alloctxn.AllocTxn, jrnl.Op, []uint64, map[uint64]*inode.Inode, cache.Cslot, inode.Inode, buf.Buf, marshal.Dec, marshal.Enc, cell:uint64, []uint8, addr.Addr
+//@   modifies held, lastst, curop, freshinum, wroteinum, cphase, abits, dirtyinum, muheld, cache.Cslot.Obj, map[uint64]*inode.Inode, inode.Inode.ShrinkSize, []uint64@inode.Inode.blks, []uint64@alloctxn.AllocTxn.freeBnums, alloctxn.AllocTxn.freeBnums, buf.Buf.dirty, []uint8
+//@   panic_assumed "shrink"
+//@   ensures [D4-quiet] quiet() && muheld == old(muheld) @C06 @C03
+//@   loop 0 invariant shrinkInv(shrinkst) && quiet() && muheld == old(muheld)
+
+//@ spec (*ShrinkerSt).StartShrinker
+//@   props C14 C06 C05
+//@   requires shrinkInv(shrinkst) && !muheld[base(shrinkst.mu)] && inum < 32768
+//@   allocates struct:struct{}
+//@   modifies muheld, shrinkst.nthread
+//@   ensures muheld == old(muheld)
+
+//@ spec (*ShrinkerSt).shrinker
+//@   props C14 C06 C05 C11
+//@   requires shrinkInv(shrinkst) && !muheld[base(shrinkst.mu)] && inum < 32768 && quiet()
+//@   panic_assumed "shrink"
+//@   allocates fstxn.FsTxn, alloctxn.AllocTxn, jrnl.Op, []uint64, map[uint64]*inode.Inode, cache.Cslot, inode.Inode, buf.Buf, marshal.Dec, marshal.Enc, cell:uint64, []uint8, addr.Addr
+//@   modifies held, lastst, curop, freshinum, wroteinum, cphase, abits, dirtyinum, muheld, cache.Cslot.Obj, map[uint64]*inode.Inode, inode.Inode.ShrinkSize, []uint64@inode.Inode.blks, []uint64@alloctxn.AllocTxn.freeBnums, alloctxn.AllocTxn.freeBnums, buf.Buf.dirty, []uint8, shrinkst.nthread
+//@   ensures [D5-signalled] quiet() && muheld == old(muheld) @C06
